@@ -66,10 +66,15 @@ def build_model(sc, therm=None, temperature_entry="setter"):
         elements = list(sc["elements"])
     kw = {}
     targs = make_temperature(sc["T"])
+    prior = list(sc.get("T_prior", [])) if temperature_entry == "history" else []
     if temperature_entry == "constructor":
         kw["temperatureParameters"] = TemperatureParameters(*targs)
+    elif prior and prior[0][0] == "ctor":
+        kw["temperatureParameters"] = TemperatureParameters(*make_temperature(prior.pop(0)[1]))
     m = PrecipitateModel(phases=names, elements=elements, thermodynamics=therm, **kw)
     m.setInitialComposition(sc["x0"] if binary else list(sc["x0"]))
+    for how, spec in prior:            # earlier schedules, each replaced by the next: only the last one set may matter
+        m.setTemperature(*make_temperature(spec))
     if temperature_entry != "constructor":
         m.setTemperature(*targs)
     va = sc["VmA"]
